@@ -39,6 +39,7 @@ Inductive kind :=
 | KEmpty
 | KCustomBlock
 | KCustomInline (n : N)
+| KCustomPair (n : N)
 | KCustomCore (n : N).
 
 (* node.env holds only OpenersBottom<MARKER> in the shipped code: marker -> [usize; 6] *)
